@@ -1,6 +1,7 @@
 package isobmff
 
 import (
+	"bufio"
 	"io"
 
 	"github.com/evanoberholster/imagemeta/meta"
@@ -41,6 +42,9 @@ func (b box) isType(bt boxType) bool { return b.boxType == bt }
 // Peek returns []byte without advancing the reader. Is limited by the
 // constrains of the box.
 func (b *box) Peek(n int) ([]byte, error) {
+	if n < 0 {
+		return nil, bufio.ErrNegativeCount
+	}
 	if b.remain >= n {
 		if b.outer != nil {
 			return b.outer.Peek(n)
@@ -53,6 +57,10 @@ func (b *box) Peek(n int) ([]byte, error) {
 // Discard advances the reader. Is limited by the
 // constrains of the box.
 func (b *box) Discard(n int) (int, error) {
+	if n < 0 {
+		// (a negative count would enlarge the box and every box around it)
+		return 0, bufio.ErrNegativeCount
+	}
 	if b.remain >= n {
 		b.remain -= n
 		if b.outer != nil {
